@@ -35,6 +35,14 @@ for i, pid in enumerate(ids, 1):
     if tag[0] == 'k':
         text = text.replace('Prefer changes that keep the overall structure of the code (same functions, same if-statements) where that is possible.',
             'IMPORTANT extra constraint for this round: the PRIMARY, most frequently inspected result must stay right. Break the property through a SECONDARY output that the property also covers but that is rarely looked at: an auxiliary or derived field of a decoded object, one line or one number of the readable display, the second of two output files, a value derived from the decoded data (a name, a wavelength, a count, a time line), the state left behind for the next call. The property as stated must really cover that output.')
+    extra = {
+        'm': 'IMPORTANT extra constraint for this round: the change must be a MODERNISATION - hand-written code replaced by what looks like its standard-library or idiomatic equivalent (encoding/binary, math/bits, bytes/strings/slices helpers, bufio.Scanner or io.ReadFull instead of a manual loop, time.Truncate/AddDate instead of arithmetic on durations, fmt verbs, strconv, a generic helper, min/max builtins, a range-over-int loop, errors.Is, sync.Once/atomic instead of a mutex, context or select with default instead of a blocking call, ...). It must read like a clean-up a reviewer would wave through, and be equivalent to the old code for the common inputs - but not for all inputs / schedules the property quantifies over.',
+        'p': 'IMPORTANT extra constraint for this round: the change must be a PERFORMANCE OPTIMISATION - fewer allocations, a reused or pooled buffer, a cache or memo, a fast path for the common case, batching of reads or writes, a buffered channel or a bigger buffer, an early exit, a precomputed table, work moved out of a loop or done lazily, a lock held for a shorter time or replaced by something cheaper. It must be a genuine speed-up that is correct for the common case, and wrong only for some inputs / schedules the property quantifies over.',
+        'x': 'IMPORTANT extra constraint for this round: the change must live on an ERROR, END-OF-INPUT, SHUTDOWN or CLEAN-UP path - how an error value is produced, wrapped, compared or propagated; what is returned together with an error; what happens to data already received when an error or end of input arrives; the order of close/flush/wait/unlock steps on the way out; a defer added, moved or removed; a resource released earlier. The normal path must stay byte-for-byte the same.',
+    }
+    extra['n'], extra['q'] = extra['m'], extra['p']  # second batches of the same flavours
+    if tag[0] in extra:
+        text = text.replace('Prefer changes that keep the overall structure of the code (same functions, same if-statements) where that is possible.', extra[tag[0]])
     if tag[0] == 'g':
         text = text.replace('Prefer changes that keep the overall structure of the code (same functions, same if-statements) where that is possible.',
             'IMPORTANT extra constraint for this round: do NOT change the function that most obviously implements the property. Put the change into something the property depends on only INDIRECTLY - a helper, an accessor, a constructor, a constant or table, a utility in another package, the way a value is passed or stored between two stages - so that the code that "owns" the property still reads exactly as before, yet the property breaks through the dependency. Keep the change small and honest-looking.')
